@@ -8,7 +8,7 @@ RULE = ('a scenario catalogue drives one endpoint (both roles) into every state 
         'with the clock advanced by 0.1 ms before every injection (a liveness-timer reset is visible, no timer fires), the victim receives through the real main_loop (and, for a part, '
         'through IkeSaController.dispatch_message and IkeSa.process_message directly): cleartext messages of exchange types 34..37 and unknown ones '
         'x request/response x both initiator-flag values x Message IDs {expected-2..expected+1, 0, 2^32-1} x payload sets (empty, DELETE IKE, '
-        'DELETE child, error NOTIFY, the payloads an authentic message would carry); every truncation, bit flips (quick: 3 bit positions per '
+        'DELETE child, error NOTIFY, unassigned / unimplemented payload kinds with and without the CRITICAL bit, the payloads an authentic message would carry); every truncation, an extra outer payload (critical or not) spliced in front of the SK payload, bit flips (quick: 3 bit positions per '
         'octet) and extensions of the last authentic datagram it received and of the authentic datagram in flight towards it; messages protected with OTHER keys; its own last message reflected. '
         'The reference classifies every injected datagram (authentic iff last payload SK and ICV verifies under the peer-direction key). '
         'For every non-authentic one: full snapshot of every IKE_SA (state, both counters, CHILD_SAs, DPD deadline, retransmission fields, '
@@ -185,6 +185,11 @@ def clear_payload_sets(rng, sa, exch):
     sets = [('empty', []), ('delete-ike', [{'type': 42, 'critical': False, 'proto': 1, 'spis': []}]),
             ('notify-auth-failed', [{'type': 41, 'critical': False, 'proto': 0, 'spi': b'', 'ntype': 24, 'data': b''}]),
             ('notify-invalid-syntax', [{'type': 41, 'critical': False, 'proto': 0, 'spi': b'', 'ntype': 7, 'data': b''}])]
+    # payload kinds the library does not implement, with and without the CRITICAL bit; a known kind with the bit set (RFC 7296 2.5)
+    sets += [('critical-unassigned', [{'type': 200, 'critical': True, 'body': b'\0\0\0\0'}]),
+             ('critical-cert+delete', [{'type': 37, 'critical': True, 'body': b'\x04' + bytes(12)}, {'type': 42, 'critical': False, 'proto': 1, 'spis': []}]),
+             ('critical-bit-on-delete', [{'type': 42, 'critical': True, 'proto': 1, 'spis': []}]),
+             ('noncritical-unassigned', [{'type': 201, 'critical': False, 'body': b'abcd'}])]
     if child is not None:
         sets.append(('delete-child', [{'type': 42, 'critical': False, 'proto': int(child.proposal.protocol_id), 'spis': [bytes(child.outbound_spi)]}]))
         sets.append(('delete-child-in', [{'type': 42, 'critical': False, 'proto': int(child.proposal.protocol_id), 'spis': [bytes(child.inbound_spi)]}]))
@@ -208,7 +213,7 @@ def forge_all(ck, inj, rng, thorough):
                     if iflag != peer_is_init and (mid - exp) % 2 ** 32 not in (0, 2 ** 32 - 1):
                         continue
                     for pname, pls in clear_payload_sets(rng, sa, exch):
-                        if not thorough and pname in ('notify-invalid-syntax', 'delete-child-in') and (mid - exp) % 2 ** 32 != 0:
+                        if not thorough and pname in ('notify-invalid-syntax', 'delete-child-in', 'critical-bit-on-delete', 'noncritical-unassigned') and (mid - exp) % 2 ** 32 != 0:
                             continue
                         m = {'spi_i': spi_i, 'spi_r': spi_r, 'major': 2, 'minor': 0, 'exch': exch, 'mid': mid,
                              'flags': (0x08 if iflag else 0) | (0x20 if resp else 0), 'payloads': pls}
@@ -239,6 +244,14 @@ def forge_all(ck, inj, rng, thorough):
             inj.inject(f'truncate.{bname}', base[:cut], (cut * 8 // max(1, len(base)),))
         for ext in (1, 4, 16, 32):
             inj.inject(f'extend.{bname}', base + bytes(ext), (ext,))
+        # an outer payload spliced in front of the authentic SK payload (the cleartext chain is walked before the checksum can be verified)
+        if len(base) > 32 and base[16] == 46:
+            for ptype, crit in ((200, 0x80), (200, 0), (37, 0x80), (41, 0x80), (42, 0)):
+                extra = bytes([46, crit, 0, 8]) + b'\0\0\0\0'
+                b = bytearray(base[:28] + extra + base[28:])
+                b[16] = ptype
+                b[24:28] = len(b).to_bytes(4, 'big')
+                inj.inject(f'splice-before-sk.{bname}', bytes(b), (ptype, crit))
         # header length field adjusted to the truncated / extended size
         for cut in (-16, -1, 1, 16):
             b = bytearray(base[:cut] if cut < 0 else base + bytes(cut))
